@@ -529,20 +529,7 @@ pub fn batches(for_c07: bool) -> Vec<String> {
     v
 }
 
-/// a do-nothing `log` logger at Trace level: the library logs through the `log` facade, and whether the host process has
-/// installed a logger must not change what a conversion does (C13 quantifies over data and configs, not over hosts)
-struct NullLogger;
-impl log::Log for NullLogger {
-    fn enabled(&self, _: &log::Metadata) -> bool {
-        true
-    }
-    fn log(&self, r: &log::Record) {
-        // format the arguments as a real logger would
-        let _ = format!("{}", r.args());
-    }
-    fn flush(&self) {}
-}
-static NULL_LOGGER: NullLogger = NullLogger;
+use crate::util::NULL_LOGGER;
 
 /// child entry point: `yvx-conform c13worker <batch> --tier .. --seed ..` prints bodies to stdout
 pub fn worker_main(batch: &str, o: &Opts) {
